@@ -27,9 +27,19 @@ func newSparse(size int64, bs int) *sparseBuf {
 	return &sparseBuf{size: size, bs: bs, chunks: map[int64][]byte{}, byPtr: map[*byte]int64{}, maxBytes: sparseCap}
 }
 
-func (s *sparseBuf) Close() error     { return nil }
-func (s *sparseBuf) Size() int64      { return s.size }
-func (s *sparseBuf) Grow(int64) error { return gerrors.ErrUnimplemented }
+func (s *sparseBuf) Close() error { return nil }
+func (s *sparseBuf) Size() int64  { return s.size }
+
+// Grow enlarges the buffer the way the in-memory buffer of the library does: the content is kept, but it lives in
+// fresh memory afterwards, so a slice handed out before the call no longer aliases the buffer.
+func (s *sparseBuf) Grow(newSize int64) error {
+	if newSize < s.size {
+		return fmt.Errorf("the new size %d is below the current size %d: %w", newSize, s.size, gerrors.ErrInvalid)
+	}
+	n := s.cloneSized(newSize)
+	s.size, s.chunks, s.byPtr, s.bytes = n.size, n.chunks, n.byPtr, n.bytes
+	return nil
+}
 func (s *sparseBuf) String() string {
 	return fmt.Sprintf("sparseBuf{size=%d, materialised=%d}", s.size, s.bytes)
 }
@@ -45,6 +55,15 @@ func (s *sparseBuf) Buffer(offs int64, size int) ([]byte, error) {
 		panic(fmt.Sprintf("the allocator asked the buffer for [%d,%d): not one block-aligned block of %d bytes (such a range overlaps two blocks)", offs, offs+int64(size), s.bs))
 	}
 	if c, ok := s.chunks[offs]; ok {
+		if len(c) < size {
+			// a partial range at the old end of a buffer that was enlarged since
+			d := make([]byte, size)
+			copy(d, c)
+			delete(s.byPtr, unsafe.SliceData(c))
+			s.chunks[offs], s.byPtr[unsafe.SliceData(d)] = d, offs
+			s.bytes += int64(size - len(c))
+			c = d
+		}
 		return c[:size], nil
 	}
 	if s.bytes+int64(size) > s.maxBytes {
@@ -71,9 +90,19 @@ func (s *sparseBuf) offsetOf(b []byte) int64 {
 }
 
 // clone copies the materialised ranges: the same bytes in a fresh buffer.
-func (s *sparseBuf) clone() *sparseBuf {
-	n := newSparse(s.size, s.bs)
+func (s *sparseBuf) clone() *sparseBuf { return s.cloneSized(s.size) }
+
+// cloneSized is the same bytes cut or followed by zero bytes to the given size, in a fresh buffer.
+func (s *sparseBuf) cloneSized(size int64) *sparseBuf {
+	n := newSparse(size, s.bs)
+	n.maxBytes = s.maxBytes
 	for o, c := range s.chunks {
+		if o+int64(len(c)) > size {
+			if o >= size {
+				continue
+			}
+			c = c[:size-o]
+		}
 		d := make([]byte, len(c))
 		copy(d, c)
 		n.chunks[o] = d
@@ -89,7 +118,8 @@ func (s *sparseBuf) clone() *sparseBuf {
 func sampleIndexes(bs, segs, count int) []int {
 	per := bs * 8
 	cand := []int{0, 1, 7, 8, 9, per / 2, per - 2, per - 1, per, per + 1, 32767, 32768, 32769, 65535, 65536, 65537,
-		per + 32768, per + 65536, count / 2, count - 2, count - 1}
+		per + 32768, per + 65536, count / 2, count - 2, count - 1,
+		1<<24 - 1, 1 << 24, 1<<24 + 1, 1<<25 - 1, 1 << 25, 1<<25 + 1}
 	seen := map[int]bool{}
 	var out []int
 	for _, i := range cand {
